@@ -140,13 +140,14 @@ func init() {
 		return nil
 	})
 	nd("Yield", func(st *State, caller *frame, fn *ssa.Function, args []Value) Value {
-		st.schedPoint("yield")
+		st.yieldPoint()
 		return nil
 	})
 	nd("Go", func(st *State, caller *frame, fn *ssa.Function, args []Value) Value {
 		name := st.concStrV(args[0])
 		f := args[1]
-		st.spawn(name, func() { st.callFunc(nil, token.NoPos, f, nil) })
+		t := st.spawn(name, func() { st.callFunc(nil, token.NoPos, f, nil) })
+		t.spawnFn = f
 		st.schedPoint("go")
 		return nil
 	})
@@ -224,7 +225,7 @@ func init() {
 	in("(*sync.Pool).Put", func(st *State, c *frame, fn *ssa.Function, a []Value) Value { return nil })
 
 	// ---- runtime / misc
-	in("runtime.Gosched", func(st *State, c *frame, fn *ssa.Function, a []Value) Value { st.schedPoint("gosched"); return nil })
+	in("runtime.Gosched", func(st *State, c *frame, fn *ssa.Function, a []Value) Value { st.yieldPoint(); return nil })
 	in("runtime.Stack", func(st *State, c *frame, fn *ssa.Function, a []Value) Value { return BVC(64, 0) })
 	in("runtime/debug.Stack", func(st *State, c *frame, fn *ssa.Function, a []Value) Value { return Slice{A: []Value{}} })
 	in("runtime.Callers", func(st *State, c *frame, fn *ssa.Function, a []Value) Value { return BVC(64, 0) })
@@ -250,12 +251,11 @@ func init() {
 
 	// ---- time
 	in("time.Now", func(st *State, c *frame, fn *ssa.Function, a []Value) Value {
-		st.now++
 		return st.timeValue(st.now)
 	})
 	in("time.Sleep", func(st *State, c *frame, fn *ssa.Function, a []Value) Value {
 		st.now += st.concInt(a[0].(*Term), "sleep")
-		st.schedPoint("sleep")
+		st.yieldPoint()
 		return nil
 	})
 	in("time.NewTimer", func(st *State, c *frame, fn *ssa.Function, a []Value) Value {
